@@ -367,10 +367,19 @@ def inline_call(fd, c, hd, serial):
         if len(hb["succs"]) == 1 and hb["succs"][0] == hcfg["exit"] and any(e >= 0 and H[e]["k"] == "Call" and H[e].get("callee") in NORETURN for e in hb["elems"]):
             nb["succs"] = []
         target = None
+        moved = set()
+        if single_tail and (valued[0] - off) in hb["elems"]:
+            # the value of a final `return e` is evaluated where the call stood
+            sub = set(_walk(F, F[c]["ch"][0]))
+            mv = [e + off for e in hb["elems"] if e >= 0 and (e + off) in sub]
+            moved = set(mv)
+            b2["elems"] = mv + b2["elems"]
         for e in hb["elems"]:
             if e < 0:
                 continue
             e2 = e + off
+            if e2 in moved:
+                continue
             if e2 in new_elems_for:
                 nb["elems"] += new_elems_for[e2]
                 if e2 in thread and thread[e2] is not None:
